@@ -1,5 +1,293 @@
 //! Translator targets owned by property C11.
+//!
+//! `lifetime` → `Generated/Lifetime.lean`: the declaration-level facts that are
+//! the *mechanism* of C11 (DESIGN.md §4 C11):
+//!  * field order of `ModuleData` (Rust drops fields in declaration order),
+//!    each field classified by its type;
+//!  * `TypedFunc` owns a `SharedModuleData` (= `Arc<ModuleData>`) that
+//!    `Module::get_function` fills with `self.inner.clone()`;
+//!  * `codegen` clones every registered constant (`declare_constant`) and the
+//!    `Arc` of every referenced registered function into the module;
+//!  * which `Drop` impls call `free_memory`.
+//! Shapes that are not recognised are extraction failures, never defaults.
 #[allow(unused_imports)]
 use super::{Gen, Target};
+use crate::find;
+use quote::ToTokens;
+use std::path::Path;
+use syn::visit::Visit;
 
-pub const TARGETS: &[Target] = &[];
+pub const TARGETS: &[Target] = &[("lifetime", "Lifetime", lifetime as Gen)];
+
+fn norm<T: ToTokens>(t: &T) -> String {
+    t.to_token_stream().to_string().replace(' ', "")
+}
+
+/// every `fn` inside an `impl`, with the impl's label (`Trait for Type` / `Type`)
+struct ImplFns {
+    cur: Option<String>,
+    out: Vec<(String, String, syn::Block)>,
+}
+impl<'ast> Visit<'ast> for ImplFns {
+    fn visit_item_impl(&mut self, i: &'ast syn::ItemImpl) {
+        let ty = norm(&i.self_ty);
+        let label = match &i.trait_ {
+            Some((_, p, _)) => format!("{} for {}", norm(p), ty),
+            None => ty,
+        };
+        let old = self.cur.replace(label);
+        syn::visit::visit_item_impl(self, i);
+        self.cur = old;
+    }
+    fn visit_impl_item_fn(&mut self, f: &'ast syn::ImplItemFn) {
+        self.out.push((
+            self.cur.clone().unwrap_or_default(),
+            f.sig.ident.to_string(),
+            f.block.clone(),
+        ));
+        syn::visit::visit_impl_item_fn(self, f);
+    }
+    fn visit_item_fn(&mut self, f: &'ast syn::ItemFn) {
+        self.out
+            .push((String::new(), f.sig.ident.to_string(), (*f.block).clone()));
+        syn::visit::visit_item_fn(self, f);
+    }
+}
+
+struct CallsMethod<'a>(&'a str, usize);
+impl<'ast> Visit<'ast> for CallsMethod<'_> {
+    fn visit_expr_method_call(&mut self, m: &'ast syn::ExprMethodCall) {
+        if m.method == self.0 {
+            self.1 += 1;
+        }
+        syn::visit::visit_expr_method_call(self, m);
+    }
+}
+
+/// the (unique) struct literal `Name { … }` inside a block
+struct StructLit<'a>(&'a str, Vec<syn::ExprStruct>);
+impl<'ast> Visit<'ast> for StructLit<'_> {
+    fn visit_expr_struct(&mut self, s: &'ast syn::ExprStruct) {
+        if s.path.segments.last().map(|x| x.ident == self.0).unwrap_or(false) {
+            self.1.push(s.clone());
+        }
+        syn::visit::visit_expr_struct(self, s);
+    }
+}
+
+fn derives(file: &syn::File, name: &str, what: &str) -> bool {
+    struct F<'a>(&'a str, &'a str, bool);
+    impl<'ast> Visit<'ast> for F<'_> {
+        fn visit_item_struct(&mut self, s: &'ast syn::ItemStruct) {
+            if s.ident == self.0 {
+                for a in &s.attrs {
+                    if a.path().is_ident("derive") {
+                        let t = norm(&a.meta);
+                        if t
+                            .trim_start_matches("derive(")
+                            .trim_end_matches(')')
+                            .split(',')
+                            .any(|d| d == self.1)
+                        {
+                            self.2 = true;
+                        }
+                    }
+                }
+            }
+        }
+    }
+    let mut f = F(name, what, false);
+    f.visit_file(file);
+    f.2
+}
+
+fn lifetime(repo: &Path) -> Result<String, String> {
+    let cg = find::parse(repo, "src/codegen/mod.rs")?;
+    let pl = find::parse(repo, "src/pipeline.rs")?;
+    let rf = find::parse(repo, "src/runtime/func.rs")?;
+    let mut notes: Vec<String> = vec![];
+
+    // ---- 1. ModuleData: field order, classified by type
+    let fields = find::struct_fields(&cg, "ModuleData")?;
+    let mut lean_fields = vec![];
+    for (name, ty) in &fields {
+        let f = match ty.as_str() {
+            "HashMap<ResolvedName,ConstantValue>" => "constants",
+            "HashMap<ResolvedName,RotoConstant>" => "rotoConstants",
+            "Vec<Arc<Box<dynAny>>>" => "registeredFns",
+            "JITModuleWrapper" => "jit",
+            other => {
+                return Err(format!(
+                    "ModuleData field `{name}` has an unrecognised type `{other}`: its drop behaviour is not modelled"
+                ));
+            }
+        };
+        if lean_fields.contains(&f) {
+            return Err(format!("ModuleData has two fields of kind {f}"));
+        }
+        lean_fields.push(f);
+        notes.push(format!("ModuleData.{name} : {ty} ↦ Field.{f}"));
+    }
+    let field_named = |kind: &str| -> Option<String> {
+        fields
+            .iter()
+            .zip(&lean_fields)
+            .find(|(_, k)| **k == kind)
+            .map(|((n, _), _)| n.clone())
+    };
+    // the wrapper really wraps the JIT module without an automatic drop
+    let wrapper = find::struct_fields(&cg, "JITModuleWrapper")?;
+    if wrapper.len() != 1 || wrapper[0].1 != "ManuallyDrop<JITModule>" {
+        return Err(format!("JITModuleWrapper is not `(ManuallyDrop<JITModule>)`: {wrapper:?}"));
+    }
+    // RotoConstant::drop calls the JIT-compiled drop function
+    let rc_drop = find::func(&cg, "drop", Some("Drop for RotoConstant"))?;
+    if !norm(&rc_drop.block).contains("(self.drop_fn)(self.ptr)") {
+        return Err("Drop for RotoConstant no longer calls `(self.drop_fn)(self.ptr)`".into());
+    }
+
+    // ---- 2. the handle owns the Arc
+    let shared = find::struct_fields(&cg, "SharedModuleData")?;
+    let shared_is_arc = shared.len() == 1 && shared[0].1 == "Arc<ModuleData>";
+    if !shared_is_arc {
+        notes.push(format!("SharedModuleData is not a newtype of Arc<ModuleData>: {shared:?}"));
+    }
+    for s in ["TypedFunc", "SharedModuleData"] {
+        if !derives(&cg, s, "Clone") {
+            return Err(format!("{s} no longer derives Clone: cloning a handle is not modelled"));
+        }
+    }
+    let tf = find::struct_fields(&cg, "TypedFunc")?;
+    let tf_field = tf.iter().find(|(_, t)| t == "SharedModuleData").map(|(n, _)| n.clone());
+    let module = find::struct_fields(&cg, "Module")?;
+    let inner = module.iter().find(|(_, t)| t == "SharedModuleData").map(|(n, _)| n.clone());
+    let Some(inner) = inner else {
+        return Err("Module has no field of type SharedModuleData".into());
+    };
+    let package = find::struct_fields(&pl, "Package")?;
+    let Some(pkg_field) = package.iter().find(|(_, t)| t == "Module<Ctx>").map(|(n, _)| n.clone()) else {
+        return Err("Package has no field of type Module<Ctx>".into());
+    };
+    let pkg_get = find::func(&pl, "get_function", Some("Package"))?;
+    if norm(find::tail_expr(&pkg_get.block)?) != format!("self.{pkg_field}.get_function(name)") {
+        return Err("Package::get_function is not `self.module.get_function(name)`".into());
+    }
+    let get = find::func(&cg, "get_function", Some("Module"))?;
+    let mut lit = StructLit("TypedFunc", vec![]);
+    lit.visit_block(&get.block);
+    if lit.1.len() != 1 {
+        return Err(format!("Module::get_function: {} `TypedFunc {{…}}` literals", lit.1.len()));
+    }
+    let mut clones_arc = false;
+    if let Some(f) = &tf_field {
+        for fv in &lit.1[0].fields {
+            if norm(&fv.member) == *f {
+                let e = norm(&fv.expr);
+                if e == format!("self.{inner}.clone()") {
+                    clones_arc = true;
+                } else {
+                    notes.push(format!("TypedFunc.{f} is initialised with `{e}`, not `self.{inner}.clone()`"));
+                }
+            }
+        }
+    } else {
+        notes.push("TypedFunc has no field of type SharedModuleData".into());
+    }
+    let handle_holds = shared_is_arc && tf_field.is_some() && clones_arc;
+
+    // ---- 3. what is cloned into the module
+    let mut all = ImplFns { cur: None, out: vec![] };
+    all.visit_file(&cg);
+    let body = |imp: &str, name: &str| -> Result<String, String> {
+        let hits: Vec<_> = all
+            .out
+            .iter()
+            .filter(|(i, n, _)| n == name && (i == imp || i.starts_with(&format!("{imp}<"))))
+            .collect();
+        match hits.len() {
+            1 => Ok(norm(&hits[0].2)),
+            n => Err(format!("{n} functions `{imp}::{name}`")),
+        }
+    };
+    let codegen = body("", "codegen")?;
+    let finalize = body("ModuleBuilder", "finalize")?;
+    let md_new = body("ModuleData", "new")?;
+    let smd_new = body("SharedModuleData", "new")?;
+    let declare_constant = body("ModuleBuilder", "declare_constant")?;
+    // construction plumbing: builder fields reach the ModuleData fields unchanged
+    if !smd_new.contains("Self(Arc::new(ModuleData::new(cranelift_jit,constants,roto_constants,registered_fns,)))") {
+        return Err("SharedModuleData::new does not build `Arc::new(ModuleData::new(cranelift_jit, constants, roto_constants, registered_fns))`".into());
+    }
+    if !finalize.contains("SharedModuleData::new(self.inner,self.runtime_constants,self.roto_constants,self.registered_fns,)") {
+        return Err("ModuleBuilder::finalize does not pass (inner, runtime_constants, roto_constants, registered_fns) to SharedModuleData::new".into());
+    }
+    let moved = |kind: &str, param: &str| -> bool {
+        match field_named(kind) {
+            Some(f) => md_new.contains(&format!("{f}:{param},")),
+            None => false,
+        }
+    };
+    let consts_cloned = moved("constants", "constants")
+        && declare_constant.contains("self.runtime_constants.insert(constant.name,constant.value.clone());")
+        && codegen.contains("forconstantinruntime.constants().values(){module.declare_constant(constant);}");
+    if !consts_cloned {
+        notes.push("registered constants are not (all) cloned into ModuleData".into());
+    }
+    let pointer = find::func(&rf, "pointer", Some("FunctionDescription"))?;
+    let fns_cloned = moved("registeredFns", "registered_fns")
+        && norm(find::tail_expr(&pointer.block)?) == "self.pointer.clone()"
+        && codegen.contains("letarc_box=f.func.pointer();")
+        && codegen.contains("module.registered_fns.push(arc_box);");
+    if !fns_cloned {
+        notes.push("referenced registered functions' Arcs are not cloned into ModuleData".into());
+    }
+    if !moved("rotoConstants", "roto_constants") || !codegen.contains("module.roto_constants.insert(*name,constant);") {
+        return Err("script constants no longer reach ModuleData's RotoConstant map".into());
+    }
+    if !md_new.contains("JITModuleWrapper(ManuallyDrop::new(cranelift_jit))") {
+        return Err("ModuleData::new does not wrap the JIT module in JITModuleWrapper(ManuallyDrop::new(..))".into());
+    }
+
+    // ---- 4. who frees the code
+    let mut sites = vec![];
+    let mut everything = ImplFns { cur: None, out: vec![] };
+    everything.visit_file(&cg);
+    everything.visit_file(&pl);
+    for (imp, name, block) in &everything.out {
+        let mut c = CallsMethod("free_memory", 0);
+        c.visit_block(block);
+        if c.1 == 0 {
+            continue;
+        }
+        let base = imp.split('<').next().unwrap_or("").to_string();
+        let site = match (base.as_str(), name.as_str()) {
+            ("Drop for JITModuleWrapper", "drop") => "wrapperDrop",
+            ("Drop for ModuleData", "drop") => "moduleDataDrop",
+            ("Drop for Module", "drop") | ("Drop for Package", "drop") => "packageDrop",
+            ("Drop for TypedFunc", "drop") => "handleDrop",
+            _ => {
+                return Err(format!("`free_memory` is called from `{imp}::{name}`: not a modelled free site"));
+            }
+        };
+        notes.push(format!("free_memory called in {imp}::{name} ↦ FreeSite.{site}"));
+        sites.push(site);
+    }
+
+    let b = |x: bool| if x { "true" } else { "false" };
+    let mut out = String::new();
+    out.push_str("/- GENERATED by /verif/extract (target `lifetime`) from src/codegen/mod.rs, src/pipeline.rs, src/runtime/func.rs — do not edit.\n");
+    for n in &notes {
+        out.push_str(&format!("   {n}\n"));
+    }
+    out.push_str("-/\nimport RotoV.Model.Lifetime\nnamespace RotoV.Gen.Lifetime\nopen RotoV.Lifetime\n\n");
+    out.push_str(&format!(
+        "def facts : Facts :=\n  {{ moduleFields := [{}]\n    handleHoldsArc := {}\n    constsCloned := {}\n    fnsCloned := {}\n    freeSites := [{}] }}\n",
+        lean_fields.iter().map(|f| format!(".{f}")).collect::<Vec<_>>().join(", "),
+        b(handle_holds),
+        b(consts_cloned),
+        b(fns_cloned),
+        sites.iter().map(|f| format!(".{f}")).collect::<Vec<_>>().join(", "),
+    ));
+    out.push_str("\nend RotoV.Gen.Lifetime\n");
+    Ok(out)
+}
